@@ -184,6 +184,41 @@ def family_region(shape, moore, plus_one, objective='streett', state_idx=None, r
     return out
 
 
+def member_instances(shape, moore, plus_one, objective, seeds):
+    """Per-member runs. A family run keeps iterating while *any* member still changes, so a fixpoint loop
+    that stops too early for one member is invisible at family level (a seeded change showed this); each
+    seeded member is therefore solved on its own by the real solver and compared, state by state, with the
+    independent explicit parity solver."""
+    import random
+    from vlib import family
+    out = []
+    for seed in seeds:
+        rnd = random.Random(seed)
+        aut, params = family.build(shape, moore, plus_one)
+        vals = family.random_member(aut, params, rnd)
+        name = f'{objective} member {shape}#{seed} moore={moore} plus_one={plus_one}'
+        sample = dict(shape=shape, member=_describe(vals, params), moore=moore, plus_one=plus_one, objective=objective)
+        try:
+            diffs = replay_member(shape, moore, plus_one, vals, objective)
+        except Exception as e:  # noqa
+            out.append(core.res(name, 'violation', sample=sample, nontrivial=True, functions=FUNCS,
+                                signature=f'{objective}-region:member:{type(e).__name__}',
+                                detail=f'member {_describe(vals, params)} of {shape}: solver raised {type(e).__name__}: {e}',
+                                cex=dict(kind='member', shape=shape, moore=moore, plus_one=plus_one, values=vals, objective=objective)))
+            continue
+        if diffs:
+            st, got, want = diffs[0]
+            out.append(core.res(name, 'violation', sample=sample, nontrivial=True, functions=FUNCS,
+                                signature=f'{objective}-region:member:{"moore" if moore else "mealy"}:{"plus_one" if plus_one else "stepwise"}',
+                                detail=f'member {_describe(vals, params)} of {shape}: at {st} solver says '
+                                       f'{"winning" if got else "losing"}, explicit parity solver says '
+                                       f'{"winning" if want else "losing"} ({len(diffs)} state(s) differ)',
+                                cex=dict(kind='member', shape=shape, moore=moore, plus_one=plus_one, values=vals, objective=objective)))
+        else:
+            out.append(core.res(name, 'holds', sample=sample, nontrivial=True, functions=FUNCS))
+    return out
+
+
 def validate_reference(seed, n):
     """xref (the oracle) vs the Zielonka solver on seeded concrete games."""
     import random
@@ -259,8 +294,8 @@ def shapes_for(tier, objective='streett'):
         return r
     # three-state-bit *table* families (I11a, I11n, I11b, B21, B12) do not finish inside CUDD's rename for the
     # nested fixpoints (probed: single tasks beyond 6000 s); integers enter through the template families
-    return [('B11a', 'cudd', 4), ('S11h2', 'cudd', 0), ('S11g2', 'cudd', 0), ('B11b', 'cudd', 4), ('B11c21', 'cudd', 4),
-            ('B11c12', 'cudd', 4), ('S11', 'cudd', 0), ('B02', 'cudd', 0), ('T11b', 'cudd', 0), ('T11', 'cudd', 16),
+    return [('B11a', 'cudd', 4), ('S11h2', 'cudd', 0), ('S11g2', 'cudd', 0), ('B11b', 'cudd', 4),
+            ('S11', 'cudd', 0), ('B02', 'cudd', 0), ('T11b', 'cudd', 0), ('T11', 'cudd', 16),
             ('S11', 'autoref', 0), ('B02', 'autoref', 0), ('T11b', 'autoref', 0), ('B11a', 'autoref', 4)]
 
 
@@ -280,6 +315,14 @@ def run(tier, seed, t0, only=None, objective='streett', pid=PID):
             tasks.append(dict(mod='vlib.props.c01', fn='family_region',
                               kw=dict(shape=shape, moore=moore, plus_one=plus_one, objective=objective, resolve=True),
                               timeout=6000, name=f'cudd:{objective}:{shape}:re-solve:moore={moore}:plus_one={plus_one}'))
+    nmem = 48 if tier == 'quick' else 600
+    for shape in ('S11g2', 'S11g3', 'S11g2h2', 'B11a', 'T11b'):
+        for moore, plus_one in MODES:
+            sds = [seed * 100000 + i for i in range(nmem)]
+            for i in range(0, nmem, 48):
+                tasks.append(dict(mod='vlib.props.c01', fn='member_instances',
+                                  kw=dict(shape=shape, moore=moore, plus_one=plus_one, objective=objective, seeds=sds[i:i + 48]),
+                                  timeout=3000, name=f'cudd:{objective}:members:{shape}:moore={moore}:plus_one={plus_one}[{i}]'))
     nval = 40 if tier == 'quick' else 300
     for i in range(4):
         tasks.append(dict(mod='vlib.props.c01', fn='validate_reference',
@@ -296,7 +339,8 @@ def run(tier, seed, t0, only=None, objective='streett', pid=PID):
              'exported region differs from the unrolled reference at that state; non-trivial = the family '
              'has a member whose region is neither empty nor full (witness query sat)',
         assumptions=['z3 decides the Boolean queries', 'dd node accessors',
-                     'a family run is pointwise the run of each member (DESIGN.md 2.4)',
+                     'a family run is pointwise the run of each member (DESIGN.md 2.4) -- except for loop termination, '
+                     'which is why seeded members are also solved one by one and compared with the explicit parity solver',
                      'reference = unrolled mu-calculus on explicit states, validated on every run against an '
                      'independent Zielonka parity solver on seeded concrete games'],
         outside=['more than 2-3 state bits per family in table form', 'rank != 1 (refused by the code)'])
